@@ -1,6 +1,9 @@
 package drivers
 
-import "strconv"
+import (
+	"strconv"
+	"strings"
+)
 
 // Registry maps driver names to entry points. arg is driver specific.
 var Registry = map[string]func(c *Ctx, arg string) error{
@@ -28,6 +31,34 @@ var Registry = map[string]func(c *Ctx, arg string) error{
 			RunProducerRandom(c, 60, 200)
 		} else {
 			RunProducerRandom(c, 25, 40)
+		}
+		return nil
+	},
+	"syncer": func(c *Ctx, arg string) error {
+		if c.BehDir != "" {
+			parts := strings.SplitN(arg, ":", 2)
+			ih, err := strconv.Atoi(parts[0])
+			if err != nil || len(parts) != 2 {
+				return err
+			}
+			names, behs, err := LoadBehaviours(c.BehDir)
+			if err != nil {
+				return err
+			}
+			for i := range behs {
+				RunSyncBehaviour(c, names[i], behs[i], uint64(ih), parts[1])
+			}
+			return nil
+		}
+		if arg == "crash" {
+			RunSyncCrashEnum(c)
+			return nil
+		}
+		RunSyncStopQueued(c)
+		if c.Thorough() {
+			RunSyncRandom(c, 150)
+		} else {
+			RunSyncRandom(c, 40)
 		}
 		return nil
 	},
